@@ -147,3 +147,73 @@ func H_C11_client_cancel_unread() {
 		vfReach("checked")
 	})
 }
+
+// zzLateFail is a link on which the write of call 1's opening envelope (header only) goes out
+// but is reported as failed once the caller's context ends (a write deadline that fires after the
+// bytes left): allowed transport behaviour.
+type zzLateFail struct {
+	*zzConn
+	sent chan struct{}
+}
+
+func (c *zzLateFail) Write(ctx context.Context, rpc *goatorepo.Rpc) error {
+	if rpc.Id == 1 && rpc.Body == nil && rpc.Reset_ == nil && rpc.Trailer == nil {
+		c.zzConn.Write(ctx, rpc) // it did go out
+		close(c.sent)
+		<-ctx.Done()
+		return ctx.Err()
+	}
+	return c.zzConn.Write(ctx, rpc)
+}
+
+// H_C11_failed_open: a stream's opening write fails (after the envelope went out) when the caller
+// gives up; the peer, which saw the open, has already answered with m envelopes for that id.
+// The failed open must release the call (the caller gets its error), and a probe call started
+// afterwards completes - the connection is not wedged by responses nobody will ever read.
+func H_C11_failed_open() {
+	m := vfParam("m", 2)
+	base := newZZConn()
+	base.wch = make(chan *goatorepo.Rpc, 8)
+	conn := &zzLateFail{zzConn: base, sent: make(chan struct{})}
+	rm := NewRpcMultiplexer(conn)
+	ctx, cancel := context.WithCancel(context.Background())
+	openDone, probeDone := false, false
+	var openErr, probeErr error
+	pv := vfByte("probe")
+	go func() {
+		// what ClientConn.newStream does: register, write the open, release on failure
+		id, rw, teardown, err := rm.NewStreamReadWriter(ctx)
+		vfAssert(err == nil && id == 1, "stream-registered")
+		openErr = rw.Write(ctx, &goatorepo.Rpc{Id: id, Header: zzHdr()})
+		if openErr != nil {
+			teardown()
+		}
+		openDone = true
+		var b *goatorepo.Body
+		b, probeErr = rm.CallUnaryMethod(context.Background(), zzHdr(), &goatorepo.Body{Data: []byte{7}}, nil)
+		vfAssert(probeErr != nil || (len(b.Data) == 1 && b.Data[0] == pv), "probe-reply-is-its-own")
+		probeDone = true
+	}()
+	go func() {
+		<-conn.sent
+		for i := 0; i < m; i++ {
+			base.in <- &goatorepo.Rpc{Id: 1, Header: zzRespHdr(), Body: &goatorepo.Body{Data: []byte{8, byte(i + 1), 0, 0, 0}}}
+		}
+		for {
+			w := <-base.wch
+			if w.Id == 2 {
+				base.in <- &goatorepo.Rpc{Id: 2, Header: zzRespHdr(), Body: &goatorepo.Body{Data: []byte{pv}}, Trailer: &goatorepo.Trailer{}}
+				return
+			}
+		}
+	}()
+	go func() {
+		<-conn.sent
+		cancel()
+	}()
+	vfAtQuiescence(func() {
+		vfAssert(openDone && openErr != nil, "failed-open-returns-its-error")
+		vfAssert(probeDone && probeErr == nil, "probe-started-after-the-failed-open-completes")
+		vfReach("checked")
+	})
+}
